@@ -101,6 +101,9 @@ struct Spec {
     /// mutable local: (cond, Lean Bool term of its value, the local, Lean term of the local's new value WHEN THE
     /// CONDITION IS TRUE; when it is false the local is unchanged)
     cond_effects: &'static [(&'static str, &'static str, &'static str, &'static str)],
+    /// fields of `self` that a `&mut self` function assigns: each is a mutable local `self_<field>` that starts as the
+    /// binder of that name; a function that returns `()` returns the tuple of these fields (in this order)
+    self_fields: &'static [&'static str],
     /// opaque tail: when the REMAINING statements of the function body (at function level, compact, joined)
     /// are exactly this text, they are not translated but stand for the given Lean term
     tail: Option<(&'static str, &'static str)>,
@@ -136,6 +139,7 @@ const SPECS: &[Spec] = &[
         effects: &[],
         wrapper: None,
         cond_effects: &[],
+        self_fields: &[],
         tail: None,
         note: "`self` is only consulted through `is_currently_aggregating()` (a Bool parameter).",
     },
@@ -170,6 +174,7 @@ const SPECS: &[Spec] = &[
         effects: &[],
         wrapper: None,
         cond_effects: &[],
+        self_fields: &[],
         tail: None,
         note: "deltas are abstract (`Δ`); the two wall-clock tests of a delta are parameter functions \
                `younger`/`older : Δ → seconds → Bool`; the four fields of `RrdpUpdatesConfig` are parameters.",
@@ -201,6 +206,7 @@ const SPECS: &[Spec] = &[
         effects: &[],
         wrapper: None,
         cond_effects: &[],
+        self_fields: &[],
         tail: None,
         note: "`Time` and `Duration` are whole seconds (`Int`); `Time - Duration` and `Time > Time` are the integer operations; \
                the wall clock `Time::now()` is a parameter; `self.next_update()` is the getter of `self.revision.next_update`.",
@@ -233,6 +239,7 @@ const SPECS: &[Spec] = &[
         effects: &[],
         wrapper: None,
         cond_effects: &[],
+        self_fields: &[],
         tail: None,
         note: "key object sets are abstract (`S`), `KeyObjectSet::requires_reissuance` is the parameter `due`; the payload of \
                `ResourceClassKeyState` is flattened into the three set parameters (each arm only reads the sets its variant has).",
@@ -277,6 +284,7 @@ const SPECS: &[Spec] = &[
         effects: &[],
         wrapper: None,
         cond_effects: &[],
+        self_fields: &[],
         tail: None,
         note: "ROAs (`ρ`), route origins (`ω`) and payloads (`π`) are abstract; AS numbers and prefix lengths are `Nat` \
                (`AsNumber::AS0` = 0); what the loop reads of a ROA are parameter functions (`roa_covers r` = \
@@ -322,6 +330,7 @@ const SPECS: &[Spec] = &[
         effects: &[],
         wrapper: None,
         cond_effects: &[],
+        self_fields: &[],
         tail: None,
         note: "FLOATS: the two `f64` ratio tests `e/c < 0.9`, `e/c > 1.1` are NOT translated but mapped to the integer \
                predicates `10·e < 9·c`, `10·e > 11·c` of the model (they are only evaluated for `c > 0`, where the exact \
@@ -367,6 +376,7 @@ const SPECS: &[Spec] = &[
         ],
         wrapper: Some(("self.store.execute(Self::lock_scope(),", "store", ")?;Ok(())")),
         cond_effects: &[],
+        self_fields: &[],
         tail: None,
         note: "the key-value transaction is abstract (`σ`, keys `κ`): the three store calls are parameter functions on it \
                and the function returns the final store (the closure's `Ok(())`); errors of the store (`?`) are outside the \
@@ -405,6 +415,7 @@ const SPECS: &[Spec] = &[
         effects: &[],
         wrapper: None,
         cond_effects: &[],
+        self_fields: &[],
         tail: None,
         note: "permission sets `S`, permissions `P` and handles `H` are abstract; `PermissionSet::has` is the parameter \
                `has`; the hash map `self.resources` enters through its look-up function `entry` (`HashMap::get`); the \
@@ -441,6 +452,7 @@ const SPECS: &[Spec] = &[
         effects: &[],
         wrapper: None,
         cond_effects: &[],
+        self_fields: &[],
         tail: None,
         note: "the three providers are abstract: `legacy_provider` is the optional legacy (admin token) provider and \
                `legacy_authenticate` its `authenticate`; `primary` / `unix_socket` are the RESULTS of the primary \
@@ -472,6 +484,7 @@ const SPECS: &[Spec] = &[
         effects: &[],
         wrapper: None,
         cond_effects: &[],
+        self_fields: &[],
         tail: None,
         note: "`u8` ↦ `Nat`; `self.max_length` and the prefix length `self.prefix.addr_len()` are parameters.",
     },
@@ -497,6 +510,7 @@ const SPECS: &[Spec] = &[
         effects: &[],
         wrapper: None,
         cond_effects: &[],
+        self_fields: &[],
         tail: None,
         note: "`u8` ↦ `Nat`; of `self.prefix` only the address family (the variant of `TypedPrefix`) and the length \
                `addr_len()` are consulted.",
@@ -530,6 +544,7 @@ const SPECS: &[Spec] = &[
         effects: &[],
         wrapper: None,
         cond_effects: &[],
+        self_fields: &[],
         tail: None,
         note: "`1u128.checked_shl(n).unwrap_or(u128::MAX)` is the parameter `shl_sat n` (the theorem instantiates it with \
                the checked shift of `Input/Checked.lean`: `2^n` for `n < 128`, else `2^128 - 1`); `saturating_sub` on `u8` \
@@ -570,6 +585,7 @@ const SPECS: &[Spec] = &[
         effects: &[],
         wrapper: None,
         cond_effects: &[],
+        self_fields: &[],
         tail: None,
         note: "nonces `ν`, the associated signer `σ`, errors `ε` and the accepted event list `α` are abstract; \
                `response.validate(&signer.id)` (CMS signature check against the associated signer's identity key) is the \
@@ -602,6 +618,7 @@ const SPECS: &[Spec] = &[
         effects: &[],
         wrapper: None,
         cond_effects: &[],
+        self_fields: &[],
         tail: None,
         note: "the event `SignerRequestMade(Nonce::new())` (fresh random nonce) is the parameter `made`.",
     },
@@ -645,6 +662,7 @@ const SPECS: &[Spec] = &[
         effects: &[],
         wrapper: None,
         cond_effects: &[],
+        self_fields: &[],
         tail: None,
         note: "delta elements `E` are abstract (one type for the three lists; the theorem instantiates it with the model's \
                `Elem`): `jail.is_parent_of(&x.uri)` is `in_jail x`, `self.0.contains_key(&CurrentObjectUri::from(&x.uri))` \
@@ -682,6 +700,7 @@ const SPECS: &[Spec] = &[
         effects: &[],
         wrapper: None,
         cond_effects: &[],
+        self_fields: &[],
         tail: Some((
             "letmutchild_certificate_updates=ChildCertificateUpdates::default();child_certificate_updates.removed.push(key);\
              letcert_name=ObjectName::from_key(&key,\"cer\");info!(\"CA'{}'revokedcertificate'{}'forchild'{}'\",self.handle,cert_name,child_handle);\
@@ -751,6 +770,7 @@ const SPECS: &[Spec] = &[
         ],
         wrapper: None,
         cond_effects: &[("desired_routes.remove(&auth)", "(has desired_routes auth)", "desired_routes", "remove desired_routes auth")],
+        self_fields: &[],
         tail: None,
         note: "the route map `Rt`, events `Ev`, the error collection `Δ`, payloads `π`, configurations `κ` (payload + comment \
                `Option χ`) and the error `ε` are abstract; the map key `RoaPayloadJsonMapKey::from(payload)` is the payload \
@@ -786,6 +806,7 @@ const SPECS: &[Spec] = &[
         effects: &[],
         wrapper: None,
         cond_effects: &[],
+        self_fields: &[],
         tail: None,
         note: "handles `H`, child records `C`, messages `M`, errors `ε` are abstract: `sender` is the sender handle INSIDE the \
                CMS message, `get_child` the look-up in THIS CA's child table, `validate child` the signature check of the CMS \
@@ -831,6 +852,7 @@ const SPECS: &[Spec] = &[
         effects: &[],
         wrapper: None,
         cond_effects: &[],
+        self_fields: &[],
         tail: None,
         note: "handles `H`, CAs `CA`, the validated request `Q`, the unsigned reply `M` (both `provisioning::Message` in Rust), reply bytes `B`, errors `ε` are abstract: `get_ca` loads the CA NAMED IN \
                THE REQUEST URI, `validate ca` is `rfc6492_validate_request` (decode + `verify_rfc6492` against that CA's child \
@@ -867,6 +889,7 @@ const SPECS: &[Spec] = &[
         effects: &[],
         wrapper: None,
         cond_effects: &[],
+        self_fields: &[],
         tail: None,
         note: "the key state enters as its variant (payloads dropped) and the identifiers of the keys its payload holds: \
                `pending.key_id`, `current.key_id`, `new.key_id`, `old.key.key_id` are the parameters `pending_key` … \
@@ -900,6 +923,7 @@ const SPECS: &[Spec] = &[
         effects: &[],
         wrapper: None,
         cond_effects: &[],
+        self_fields: &[],
         tail: None,
         note: "`get_child` is the look-up of the child (an unknown child is an error), `has_open_response child` whether the \
                proxy holds a response for (child, key); the one event `ChildResponseGiven(child, key)` and the refusal are \
@@ -940,6 +964,7 @@ const SPECS: &[Spec] = &[
         effects: &[],
         wrapper: None,
         cond_effects: &[],
+        self_fields: &[],
         tail: Some((
             "for(base_repo,key_id)inkeys_for_requests.into_iter(){events.push(CertAuthEvent::CertificateRequested{resource_class_name:rcn.clone(),req:self.create_issuance_req(base_repo,name_space,entitlement.class_name().clone(),&key_id,signer,)?,ki:key_id,});}forkeyinentitlement.issued_certs().iter().map(|c|c.cert().subject_key_identifier()){if!self.knows_key(key){letrevoke_req=RevocationRequest::new(entitlement.class_name().clone(),key,);events.push(CertAuthEvent::UnexpectedKeyFound{resource_class_name:rcn.clone(),revoke_req,});}}Ok(())",
             "keys_for_requests",
@@ -951,6 +976,37 @@ const SPECS: &[Spec] = &[
                (itself translated: `CertifiedKey.wants_update`) is a Boolean parameter per key.  The closing statements - one \
                `CertificateRequested` per collected key, then `UnexpectedKeyFound` for every listed key `knows_key` does not \
                know - are compared verbatim.",
+    },
+    Spec {
+        id: "C14",
+        file: "src/server/ca/publishing.rs",
+        ty: "ObjectSetRevision",
+        method: "next",
+        lean: "ObjectSetRevision.next",
+        sig: "&mutself,next_update:Time,mft_number_override:Option<u64>->()",
+        binders: "{T : Type} (self_number : Nat) (self_this_update self_next_update : T) (five_minutes_ago next_update : T) (mft_number_override : Option Nat)",
+        args: "self_number self_this_update self_next_update five_minutes_ago next_update mft_number_override",
+        ret: "Nat × T × T",
+        num: Num::Nat,
+        names: &[
+            ("mft_number_override", "mft_number_override"),
+            ("Time::five_minutes_ago()", "five_minutes_ago"),
+            ("next_update", "next_update"),
+        ],
+        methods: &[],
+        state_ty: &[],
+        elem_ty: "",
+        enums: &[],
+        structs: &[],
+        types: &[],
+        opaque_lets: &[],
+        effects: &[],
+        wrapper: None,
+        cond_effects: &[],
+        self_fields: &["number", "this_update", "next_update"],
+        tail: None,
+        note: "times `T` are abstract; `Time::five_minutes_ago()` is a parameter; the result is (number, this_update, \
+               next_update) of the revision after the call.",
     },
 ];
 
@@ -1185,7 +1241,14 @@ impl<'a> Tr<'a> {
                 }
                 Ok(format!("({{ {} }} : {ty})", fields.join(", ")))
             }
-            E::Field(_) => Err(format!("field access `{c}` (not in the name map)")),
+            E::Field(fl) => {
+                if let (syn::Expr::Path(p), syn::Member::Named(m)) = (&*fl.base, &fl.member) {
+                    if p.path.is_ident("self") && self.spec.self_fields.contains(&m.to_string().as_str()) {
+                        return Ok(format!("self_{m}"));
+                    }
+                }
+                Err(format!("field access `{c}` (not in the name map)"))
+            }
             E::Cast(_) => Err(format!("cast `{c}` (not in the name map)")),
             E::Macro(_) => Err(format!("macro `{c}`")),
             _ => Err(format!("expression `{c}`")),
@@ -1419,6 +1482,11 @@ impl<'a> Tr<'a> {
         let Some((first, rest)) = items.split_first() else {
             return match ctl {
                 Ctl::Loop => Ok(format!("{}{}", pad(ind), self.loop_continue())),
+                Ctl::Fn if !self.spec.self_fields.is_empty() => {
+                    // the end of a `&mut self` function that returns `()`: its result is what it left in the fields
+                    let fields: Vec<String> = self.spec.self_fields.iter().map(|f| format!("self_{f}")).collect();
+                    Ok(format!("{}({})", pad(ind), fields.join(", ")))
+                }
                 _ => Err("control reaches the end of a block that must produce a value".into()),
             };
         };
@@ -1578,6 +1646,14 @@ impl<'a> Tr<'a> {
     fn assign(&mut self, lhs: &syn::Expr, rhs: String, rest: &[Item], ctl: Ctl, ind: usize) -> R {
         let x = match lhs {
             syn::Expr::Path(p) if p.path.get_ident().is_some() => p.path.get_ident().unwrap().to_string(),
+            syn::Expr::Field(fl) => match (&*fl.base, &fl.member) {
+                (syn::Expr::Path(p), syn::Member::Named(m))
+                    if p.path.is_ident("self") && self.spec.self_fields.contains(&m.to_string().as_str()) =>
+                {
+                    format!("self_{m}")
+                }
+                _ => return Err(format!("assignment to `{}`", compact(lhs))),
+            },
             _ => return Err(format!("assignment to `{}`", compact(lhs))),
         };
         self.assign_named(&x, rhs, rest, ctl, ind)
@@ -2046,6 +2122,9 @@ fn gen_fn(repo: &Path, spec: &Spec) -> R {
         let_after_loop: false,
         aux: Vec::new(),
     };
+    for fld in spec.self_fields {
+        tr.locals.push((format!("self_{fld}"), true));
+    }
     let block: &syn::Block = match spec.wrapper {
         None => &f.block,
         Some((prefix, param, suffix)) => {
@@ -2124,6 +2203,9 @@ pub fn run(repo: &Path, table: &str) -> String {
         }
         if let Some((pre, param, suf)) = s.wrapper {
             out.push_str(&format!("    only the closure body of `{pre}|{param}|{{…}}{suf}` is translated; `{param}` is a mutable local bound by the parameter of the same name\n"));
+        }
+        if !s.self_fields.is_empty() {
+            out.push_str(&format!("    `&mut self`: the fields {} are mutable locals `self_<field>`; the function returns them as a tuple\n", s.self_fields.iter().map(|f| format!("`self.{f}`")).collect::<Vec<_>>().join(", ")));
         }
         for (c, b, var, new) in s.cond_effects {
             out.push_str(&format!("    condition `{c}` ↦ `{b}`, and where it is true `{var} := {new}` first\n"));
